@@ -98,6 +98,19 @@ theorem ls_trials_on_ray (x d lb ub : Vec α) (maxStep : α) (nit : Nat) (hn : n
     trial x d lb ub a = vadd x (smul a d) :=
   clip_of_inBox (inBox_of_inBoxF (maxStep_feasible x d lb ub maxStep nit hn hx hd a h0 ha).1)
 
+/-- **C11 (10)** (exact arithmetic) why a converged line search yields a usable curvature pair: with
+`φ'(0) = g₀ᵀd < 0`, the curvature condition `|φ'(stp)| ≤ gtol·(−φ'(0))`, `gtol < 1` and `stp > 0`,
+the pair `s = stp·d`, `y = g₁ − g₀` has `sᵀy = stp·(φ'(stp) − φ'(0)) > 0`. -/
+theorem wolfe_gives_curvature (dphi0 dphi1 gtol stp : α) (h0 : dphi0 < 0) (hg : gtol < 1) (hs : 0 < stp)
+    (hw : |dphi1| ≤ gtol * (-dphi0)) : 0 < stp * (dphi1 - dphi0) := by
+  have h1 : -(gtol * (-dphi0)) ≤ dphi1 := by
+    have := neg_abs_le dphi1
+    linarith
+  have h2 : gtol * (-dphi0) < -dphi0 := by
+    have : 0 < -dphi0 := by linarith
+    nlinarith
+  exact mul_pos hs (by linarith)
+
 end F
 
 /-! ### The stepper itself (model of SciPy's `DCSRCH._iterate` + `dcstep`, Model/Dcsrch.lean) -/
@@ -134,6 +147,29 @@ theorem ls_steps_in_range {ε : Type} (u : User α ε) (o : Oracles α (DC α)) 
       (¬ stp < 0 ∧ ¬ maxAllowedStep x0 d c.lb c.ub c.maxStep nit < stp) ∧
       EvalAt u.toSFUser sf.mode (trial x0 d c.lb c.ub stp) call :=
   lineSearch_log_range u o ho c x0 f0 g0 d nit sf sf' maxIter olog olog' stp? hc h
+
+/-- **C11 (9)** the stepper reports convergence only at a step satisfying the strong Wolfe
+conditions it was built with: sufficient decrease `f ≤ f₀ + stp·(ftol·g₀)` (`gtest = ftol·g₀` is set
+by the start call) and curvature `|g| ≤ gtol·(−g₀)` — for any arithmetic and any history (level U;
+comparisons are the stepper's own `≤`). The step it returns with that verdict is the one just
+evaluated. -/
+theorem dcsrch_conv_is_wolfe (st : DC α) (stp f g : α) (task : Task) (ht : task ≠ .start)
+    (h : (iterate st stp f g task).2.2 = .conv) :
+    DcOps.le f (st.finit + stp * st.gtest) = true ∧ DcOps.le (fabs g) (st.gtol * (-st.ginit)) = true ∧
+      (iterate st stp f g task).2.1 = stp := by
+  unfold iterate at h ⊢
+  rw [if_neg ht] at h ⊢
+  dsimp only at h ⊢
+  split at h
+  · rename_i hc
+    simp only [Bool.and_eq_true] at hc
+    rw [if_pos (by simp only [Bool.and_eq_true]; exact hc)]
+    exact ⟨hc.1, hc.2, rfl⟩
+  · split at h
+    · cases h
+    · exfalso
+      unfold advance finish at h
+      cases h
 
 end stepper
 
